@@ -24,7 +24,7 @@ def claimed():
 def main():
     args = [a for a in sys.argv[1:] if not a.startswith("--")]
     all_props = "--all-props" in sys.argv
-    sd = os.path.join(HERE, "seeded")
+    sd = os.path.join(HERE, "benign" if "--benign" in sys.argv else "seeded")
     seeds = args or sorted(d for d in os.listdir(sd) if os.path.isfile(os.path.join(sd, d, "patch.diff")))
     results = {}
     if sh(f"git -C {REPO} status --porcelain").stdout.strip():
@@ -40,7 +40,8 @@ def main():
             results[s] = {"error": "patch does not apply"}
             continue
         try:
-            props = claimed() if all_props else [target]
+            benign = bool(meta.get("benign")) or "--benign" in sys.argv
+            props = claimed() if (all_props or benign) else [target]
             fired = {}
             for p in props:
                 if p not in claimed():
@@ -58,6 +59,9 @@ def main():
                 if keys:
                     fired[p] = keys
             results[s] = {"target": target, "caught_by": fired}
+            if benign:
+                print(f"{s}: benign edit: " + ("silent ok" if not fired else f"FALSE ALARM {fired}"))
+                continue
             tgt = fired.get(target)
             print(f"{s}: target {target}: {'CAUGHT ' + str(tgt[:3]) if tgt and tgt != 'not claimed' else ('not claimed' if tgt == 'not claimed' else 'MISSED')}" +
                   (f"; also {[k for k in fired if k != target]}" if all_props and len(fired) > (1 if tgt else 0) else ""))
